@@ -247,6 +247,11 @@ func c12Exec(root, mode string, in []byte, ps *binpatch.PatchSet, blob io.Reader
 	case "same+link":
 		dest = inP
 		must(os.Link(inP, link))
+	case "same-rebound":
+		// the output path is the name the input was opened under, but by the
+		// time the patch is applied another writer has replaced that name
+		// (write-then-rename): same name, another file
+		dest = inP
 	case "other-present":
 		must(os.WriteFile(dest, []byte("previous destination content"), 0o644))
 	}
@@ -265,6 +270,11 @@ func c12Exec(root, mode string, in []byte, ps *binpatch.PatchSet, blob io.Reader
 			return
 		}
 		defer f.Close()
+		if mode == "same-rebound" {
+			tmp := filepath.Join(root, "other-writer.tmp")
+			must(os.WriteFile(tmp, []byte("what another writer put under this name meanwhile"), 0o644))
+			must(os.Rename(tmp, inP))
+		}
 		if blob != nil {
 			out.err = signers.ApplyBinPatch(f, dest, blob)
 		} else {
@@ -332,7 +342,7 @@ func c12Run(r *core.Run) {
 		r.Failf("C12.roundtrip.redump-differs", shape, "Dump(Load(Dump(p))) differs from Dump(p) (%d vs %d bytes)", len(d2), len(dump))
 	}
 
-	modes := []string{"same", "other-absent", "other-present", "same+link"}
+	modes := []string{"same", "other-absent", "other-present", "same+link", "same-rebound"}
 	results := map[string][]byte{}
 	for _, mode := range modes {
 		for _, via := range []string{"direct", "wire"} {
@@ -383,6 +393,9 @@ func c12Run(r *core.Run) {
 				if !bytes.Equal(out.link, c.In) {
 					r.Failf("C12.link-modified", key, "the other hard link no longer holds the original bytes (%s)", shape)
 				}
+			}
+			if mode == "same-rebound" {
+				r.Probe("output-name-rebound-between-open-and-apply")
 			}
 			if mode != "same" && out.inPlace {
 				r.Failf("C12.inplace-wrong-path", key, "in-place strategy chosen for mode %s (%s)", mode, shape)
